@@ -21,8 +21,8 @@ RULE = (
     "Arrow), sort and a thread count; every rule is one public operation with freshly generated values / mask / "
     "parameters (the whole op registry: reductions with all mask kinds, var/std/median/quantile/agg, transform "
     "variants, size/count, groups, key_count, head/tail/nth, cumulative, rolling, shift/diff, ema row- and "
-    "time-weighted, apply, margins, GroupBy(gb) copies, class-level calls GroupBy.op(raw_keys, ...), and re-use of one "
-    "mask buffer refilled in place).  Up to 12 steps per machine.  Non-trivial = the history contains a re-layout or "
+    "time-weighted, apply, margins, GroupBy(gb) copies (used once, or kept as a twin that is operated on later), "
+    "class-level calls GroupBy.op(raw_keys, ...), and re-use of one mask buffer refilled in place).  Up to 12 steps per machine.  Non-trivial = the history contains a re-layout or "
     "cache-filling operation (transform, row selection, cumulative/rolling, groups, apply, ema) followed by >= 1 "
     "reduction with a slice or positional mask, on a chunk-wise representation.  Distinct = hash of the history."
 )
@@ -32,7 +32,7 @@ ASSUMPTIONS = ["the fresh object is built under the same harness shims, so only 
 
 RELAYOUT = {"groups", "apply_max", "median", "quantile", "head", "tail", "nth", "cumsum", "cummin", "cummax", "cumcount", "rolling_sum",
             "rolling_mean", "rolling_min", "rolling_max", "shift", "diff", "ema", "ema_timed"}
-EXTRA = ("groups", "key_count", "copy_then_sum", "classlevel_sum", "sum_margins", "same_buffer_mask")
+EXTRA = ("groups", "key_count", "copy_then_sum", "classlevel_sum", "sum_margins", "same_buffer_mask", "make_twin", "twin_sum", "twin_cumsum")
 
 
 def build_gb(cfg, keys_spec):
@@ -62,6 +62,13 @@ def run_step(gb, raw_keys, step, cfg, buffers):
             return gb.key_count
         if op == "copy_then_sum":
             return GroupBy(gb).sum(values, mask=mask)
+        if op == "make_twin":
+            # a copy that lives on: later operations on either object must not disturb the other
+            buffers["twin"] = GroupBy(gb)
+            return gb.size()
+        if op in ("twin_sum", "twin_cumsum"):
+            twin = buffers.get("twin") or gb
+            return twin.sum(values, mask=mask) if op == "twin_sum" else twin.cumsum(values, mask=mask if not isinstance(mask, slice) else None)
         if op == "classlevel_sum":
             with gbops.Shims(threshold=cfg.get("threshold"), key_chunks=cfg.get("key_chunks")):
                 return GroupBy.sum(raw_keys, values, mask=mask)
@@ -83,8 +90,13 @@ def run_step(gb, raw_keys, step, cfg, buffers):
 
 def reference_step(step):
     """What a fresh object is asked: copies and class-level calls must equal the plain call on the original keys."""
-    if step["op"] == "copy_then_sum":
+    if step["op"] in ("copy_then_sum", "twin_sum"):
         return dict(step, op="sum", kw={})
+    if step["op"] == "twin_cumsum":
+        m = step.get("mask")
+        return dict(step, op="cumsum", kw={"skip_na": True}, mask=None if (m and m["kind"] != "bool") else m)
+    if step["op"] == "make_twin":
+        return dict(step, op="size", kw={}, mask=None)
     if step["op"] == "classlevel_sum":
         return dict(step, op="sum_default_config", kw={})
     return step
@@ -206,10 +218,17 @@ def step_strategy(draw, n, after_relayout=False):
         dt = {"f": ("float64",), "i": ("int64", "int32")}[draw(st.sampled_from(kinds))]
         step["vals"] = draw(S.value_column(n, dtypes=dt, regime="exact"))
         step["mask"] = None if mk == "none" else draw(S.mask_spec(n, kinds=(mk,), negative_pos=False))
+        if forced_mask == "slice" and draw(st.booleans()):
+            # a slice that starts inside the data and cuts some groups off
+            a = draw(st.integers(1, max(1, n // 2)))
+            step["mask"] = {"kind": "slice", "start": a, "stop": draw(st.sampled_from([None, n - 1, a + max(2, n // 2)]))}
         step["kw"] = o.kw(draw, n) if o.kw else {}
-    elif op in ("copy_then_sum", "classlevel_sum", "sum_margins"):
+    elif op in ("copy_then_sum", "classlevel_sum", "sum_margins", "twin_sum"):
         step["vals"] = draw(S.value_column(n, dtypes=("float64",), regime="exact"))
         step["mask"] = draw(S.mask_spec(n, kinds=("none", "bool", "slice")))
+    elif op == "twin_cumsum":
+        step["vals"] = draw(S.value_column(n, dtypes=("float64",), regime="exact"))
+        step["mask"] = draw(S.mask_spec(n, kinds=("none", "bool")))
     elif op == "same_buffer_mask":
         step["vals"] = draw(S.value_column(n, dtypes=("float64",), regime="exact"))
         step["mask_a"] = draw(st.lists(st.booleans(), min_size=n, max_size=n))
@@ -337,5 +356,5 @@ def drive(sub, variant, ctx, n_examples, seed_int, shrink_budget_s):
 
 
 SUBS = [
-    Sub("history", check, stateful=drive, variants=("-",), examples=(480, 16000), replicas=(16, 16), cost={"-": 1600}),
+    Sub("history", check, stateful=drive, variants=("-",), examples=(640, 16000), replicas=(16, 16), cost={"-": 1600}),
 ]
